@@ -62,7 +62,59 @@ let observe (s : state) addrs slots thashes pres : string =
 
 let bool_of s = (s = "1" || s = "true")
 
-let do_op sid (toks : string list) : string =
+(* ---- the abstract system of State/StateAbs.v, run next to the model: (re)seeded with abs_state
+   whenever a StateDB has no live snapshot by construction (new, reopen, Copy destination, after
+   Finalise / IntermediateRoot / Commit), stepped with astep on every other operation ---- *)
+let astates : (int, astate) Hashtbl.t = Hashtbl.create 16
+let aseed sid = Hashtbl.replace astates sid (abs_state h (load sid))
+let op_of (toks : string list) : op option =
+  match toks with
+  | ["create"; a] -> Some (OCreate (n_of_string a))
+  | ["addbal"; a; v] -> Some (OAddBal (n_of_string a, z_of_string v))
+  | ["subbal"; a; v] -> Some (OSubBal (n_of_string a, z_of_string v))
+  | ["setbal"; a; v] -> Some (OSetBal (n_of_string a, z_of_string v))
+  | ["setnonce"; a; v] -> Some (OSetNonce (n_of_string a, n_of_string v))
+  | ["setcode"; a; c] -> Some (OSetCode (n_of_string a, bytes_of_hex c))
+  | ["setstate"; a; k; v] -> Some (OSetState (n_of_string a, n_of_string k, n_of_string v))
+  | ["suicide"; a] -> Some (OSuicide (n_of_string a))
+  | ["addlog"; d] -> Some (OAddLog (n_of_string d))
+  | ["addrefund"; g] -> Some (OAddRefund (n_of_string g))
+  | ["addpreimage"; k; p] -> Some (OAddPreimage (n_of_string k, bytes_of_hex p))
+  | ["prepare"; th; bh; ti] -> Some (OPrepare (n_of_string th, n_of_string bh, n_of_string ti))
+  | ["snapshot"] -> Some OSnapshot
+  | ["revert"; id] -> Some (ORevert (n_of_string id))
+  | _ -> None
+(* returns "" or a marker when the abstract system and the model disagree on panicking *)
+let astep_sid sid toks (model_panicked : bool) : string =
+  match op_of toks with
+  | None -> ""
+  | Some o ->
+    (match Hashtbl.find_opt astates sid with
+     | None -> ""
+     | Some a ->
+       (match astep h a o with
+        | Ok a' -> Hashtbl.replace astates sid a'; if model_panicked then " ABSTRACT-DID-NOT-PANIC" else ""
+        | Panic -> if model_panicked then "" else " ABSTRACT-PANICKED"))
+
+let aobserve sid addrs slots thashes pres : string =
+  let a = Hashtbl.find astates sid in
+  let d = a.as_data in
+  let b = Buffer.create 1024 in
+  List.iter (fun ad ->
+    let (bal, nonce, ch, code, sui) =
+      match a_view d ad with
+      | Some v -> (v.v_balance, v.v_nonce, v.v_codehash, (match v.v_code with Some c -> c | None -> []), v.v_suicided)
+      | None -> (Z0, N0, bytes_of_hex "0x0000000000000000000000000000000000000000000000000000000000000000", [], false) in
+    Buffer.add_string b (Printf.sprintf "A%s:e=%s,m=%s,b=%s,n=%s,h=%s,c=%s,z=%s,s=%s,st=%s "
+      (nstr ad) (bstr (a_exist d ad)) (bstr (a_empty h d ad)) (zstr bal) (nstr nonce)
+      (hex_of_bytes ch) (hex_of_bytes code) (nstr (n_of_int (List.length code))) (bstr sui)
+      (String.concat "/" (List.map (fun k -> nstr (a_store d ad k)) slots)))) addrs;
+  Buffer.add_string b ("R=" ^ nstr d.ad_refund);
+  List.iter (fun th -> Buffer.add_string b (" L" ^ nstr th ^ "=" ^ String.concat "," (List.map render_log (d.ad_logs th)))) thashes;
+  List.iter (fun p -> Buffer.add_string b (" P" ^ nstr p ^ "=" ^ (match d.ad_pre p with Some x -> hex_of_bytes x | None -> "-"))) pres;
+  Buffer.contents b
+
+let do_op_model sid (toks : string list) : string =
   let s = load sid in
   let ok s' = store sid s'; "ok" in
   match toks with
@@ -113,8 +165,16 @@ let mobserve mid addrs =
     | Some acc -> Printf.sprintf "M%s:%s/%s" (nstr a) (nstr acc.m_nstart) (String.concat "" (List.map bstr acc.m_nonces))
     | None -> Printf.sprintf "M%s:-" (nstr a)) addrs)
 
+let do_op sid (toks : string list) : string =
+  let res = do_op_model sid toks in
+  match toks with
+  | ("finalise" | "iroot" | "commit") :: _ -> if res <> "panic" then aseed sid; res
+  | _ -> res ^ astep_sid sid toks (res = "panic")
+
 let handle (toks : string list) : string =
   match toks with
+  | ["aobs"; sid; addrs; slots; thashes; pres] ->
+    aobserve (int_of_string sid) (ints addrs) (ints slots) (ints thashes) (ints pres)
   | ["manage"; sid; mid] ->
     (match manage_state (load (int_of_string sid)) with
      | Ok ms -> mstore (int_of_string mid) ms; "ok"
@@ -122,15 +182,15 @@ let handle (toks : string list) : string =
   | "mop" :: mid :: rest -> do_mop (int_of_string mid) rest
   | ["mobs"; mid; addrs] -> mobserve (int_of_string mid) (ints addrs)
   | ["keccak"; x] -> hex_of_bytes (keccak256 (bytes_of_hex x))
-  | ["reset"] -> Hashtbl.reset states; Hashtbl.reset mstates; codes := []; commits := [||]; "ok"
-  | ["new"; sid] -> Hashtbl.replace states (int_of_string sid) (new_state [] !codes); "ok"
+  | ["reset"] -> Hashtbl.reset states; Hashtbl.reset mstates; Hashtbl.reset astates; codes := []; commits := [||]; "ok"
+  | ["new"; sid] -> Hashtbl.replace states (int_of_string sid) (new_state [] !codes); aseed (int_of_string sid); "ok"
   | ["reopen"; sid; k] ->
     let k = int_of_string k in
     if k < 0 || k >= Array.length !commits then "err"
-    else (Hashtbl.replace states (int_of_string sid) (new_state (!commits).(k) !codes); "ok")
+    else (Hashtbl.replace states (int_of_string sid) (new_state (!commits).(k) !codes); aseed (int_of_string sid); "ok")
   | ["copy"; src; dst] ->
     (match copy (load (int_of_string src)) with
-     | Ok s' -> Hashtbl.replace states (int_of_string dst) s'; "ok"
+     | Ok s' -> Hashtbl.replace states (int_of_string dst) s'; aseed (int_of_string dst); "ok"
      | Panic -> "panic")
   | "op" :: sid :: rest -> do_op (int_of_string sid) rest
   | ["realroot"; sid] -> hex_of_bytes (state_root h (load (int_of_string sid)).st_trie)
